@@ -61,11 +61,13 @@ def get_public(I, obj, attr):
 
 
 def set_public(I, obj, attr, value):
-    """obj.attr = value through the class's property setter when there is one"""
-    if I.repo.find_method(obj.ci, attr + '.setter', missing_ok=True):
-        I.call_method(obj, attr + '.setter', [value], {})
-    else:
+    """obj.attr = value as a user statement: whatever the class routes the store through (a property setter, a
+    descriptor's __set__, its own __setattr__) runs"""
+    from ..xlate import Frame, builtin_call
+    if obj.ci is None:
         obj.attrs[attr] = value
+        return
+    builtin_call(I, Frame(I, obj.ci.module, {}, None, None), 'setattr', [obj, attr, value], {}, None)
 
 
 def state_sum(I, species_list, stoich, method, kw, prod=False):
